@@ -114,6 +114,15 @@ class GraphQLInterfaceType(GraphQLAbstractType, GraphQLCompositeType):
         """
         return self._possible_types
 
+    def add_field(self, field: "GraphQLField") -> None:
+        """
+        Adds the filled in field to the list of implemented fields.
+        :param field: field to add to the list
+        :type field: GraphQLField
+        """
+        if field.name == "__typename":
+            self.implemented_fields[field.name] = field
+
     def find_field(self, name: str) -> "GraphQLField":
         """
         Returns the field corresponding to the filled in name.
